@@ -39,6 +39,11 @@
 \*               PermitUser, JSON status containing the running modules.  modules/{m}/trigger/{e}: needs
 \*               PermitSelf for writing, injects the event exactly once into the hooks of module m; an
 \*               unknown event is a 500 and injects nothing.
+\*  P9 the database endpoint (/api/database/v1, websocket) is an external interface whoever connects - also a
+\*               client on the loopback address with admin permission: it acts as neither local nor internal (database.Options
+\*               doc: Local "crown jewels may only be accessed by local", Internal "secrets may only be accessed by
+\*               internal"; property C03 names the database API as non-privileged).  A plain record is served, a get for a
+\*               secret or a crown-jewel record is answered with an error, and a query lists neither.
 \* Where the statement is silent (body of a refused HTTP request seen through the bridge, Content-Type of a
 \* HEAD answer, the wording of errors) every outcome is allowed.
 EXTENDS Integers, Sequences, FiniteSets, TLC
@@ -236,6 +241,10 @@ PairOK(s, o, b, w, same, samect) ==
            /\ o.hm # "HEAD" /\ EpTab[o.ep].kind # "status") => same /\ samect
 
 LoginOK(s, o, ob) == ob.code = 200 /\ ob.cookie = ~s.dev
+
+\* P9: what a websocket client saw for the plain, the secret and the crown-jewel record (reply types) and in the query
+WsProbeOK(ob) == /\ ob.plain = "ok" /\ ob.secret = "error" /\ ob.crown = "error"
+                 /\ ob.q = <<"plain">>
 
 \* ---------------------------------------------------------------- laws of the model (checked breadth-first)
 \* P4: nothing that needs PermitSelf runs through the bridge outside dev mode
